@@ -1,4 +1,4 @@
 From Coq Require Import List Bool PArith NArith Extraction ExtrOcamlBasic.
 From C18 Require Import Model.
 Extraction "c18.ml" crawl_up create_source_list find_sources_in_dir find_module find_modules_recursive
-  search_paths load_roots add_dependency py_files crawl_each valid_names wf_node sibling_stub inverse_ok.
+  search_paths load_roots add_dependency py_files crawl_each valid_names wf_node sibling_stub inverse_ok no_shadow.
